@@ -8,9 +8,14 @@ should_gzip(AsRequest::headers(req)), both AsRequest impls return the request's
 own method/headers, the setters replace exactly one field; (R4) the gzip writer
 wraps the chunk writer in flate2's GzEncoder built with
 Compression::new(<configured level>), the gzip arm of write/flush goes through
-the encoder and the identity arm directly to the chunk writer.  Does not decide:
+the encoder and the identity arm directly to the chunk writer; (R5) the chunk
+transport beneath either writer is the identity (C08.R1-R5: what `write` accepts
+is appended once, whole buffers are queued at the back and taken from the front),
+so "the written bytes verbatim" / "the encoder's output" is what the body carries.
+Does not decide:
 that the bytes flate2 emits are valid gzip (C09, not applicable)."""
 from . import streaming as ST
+from . import chunker as CH
 
 CONFIGS_QUICK = ["dir"]
 
@@ -18,3 +23,7 @@ CONFIGS_QUICK = ["dir"]
 def run(ctx):
     ST.coding_agreement(ctx)
     ST.writer_delegation(ctx, "C17.R4")
+    CH.write_rules(ctx, "C17.R5.write", "C17.R5.inv")
+    CH.publish_rules(ctx, "C17.R5.publish", "C17.R5.nonempty", "C17.R5.flag")
+    CH.reader_consume(ctx, "C17.R5.consume")
+    CH.queue_api(ctx, "C17.R5.fifo")
